@@ -357,7 +357,7 @@ def _both(sig, ret, body, prelude, wiring):
             res[mode] = ("ok", _lower_canon(m.f, wiring))
         except BaseException as e:  # noqa: BLE001
             from guppylang_internals.error import GuppyComptimeError, GuppyError
-            kind = "reject" if isinstance(e, (GuppyError, GuppyComptimeError, TypeError)) else "crash"
+            kind = "reject" if isinstance(e, (GuppyError, GuppyComptimeError, TypeError, AttributeError)) else "crash"
             res[mode] = (kind, type(e).__name__ + ":" + str(e)[:80])
         finally:
             if m is not None:
@@ -656,6 +656,55 @@ def tie_const_reuse(ctx):
         _check_pair(ctx, "constreuse:" + fam, sig, "None", body, None, "", wiring=True)
 
 
+# ---------------------------------------------------------------------- builtin x operand-kind grid
+# Every builtin that the tracer mocks (int, float, len) or the checker special-cases (bool, nat, abs, round, pow,
+# divmod) applied to every kind of operand: traced numerics, a struct that defines the corresponding dunder, a struct
+# that does not, arrays, tuples, comptime constants.
+BUILTIN_PRELUDE = (
+    "@guppy.struct\nclass D:\n    a: int\n    b: float\n"
+    "    @guppy\n    def __len__(self: \"D\") -> int:\n        return self.a\n"
+    "    @guppy\n    def __int__(self: \"D\") -> int:\n        return self.a + 1\n"
+    "    @guppy\n    def __float__(self: \"D\") -> float:\n        return self.b\n"
+    "    @guppy\n    def __bool__(self: \"D\") -> bool:\n        return self.a > 0\n"
+    "    @guppy\n    def __abs__(self: \"D\") -> int:\n        return self.a * 2\n"
+    "    @guppy\n    def __round__(self: \"D\") -> int:\n        return self.a\n"
+    "@guppy.struct\nclass N:\n    a: int\n"
+)
+BUILTINS1 = ["int", "float", "bool", "nat", "len", "abs", "round"]
+OPERANDS = [
+    ("int", "v: int", "v"), ("nat", "v: nat", "v"), ("float", "v: float", "v"), ("bool", "v: bool", "v"),
+    ("struct with dunder", "v: D", "v"), ("struct without dunder", "v: N", "v"),
+    ("struct built locally", "x: int, y: float", "D(x, y)"),
+    ("array", "v: array[int, 3]", "v"), ("array of float", "v: array[float, 2]", "v"),
+    ("tuple", "v: tuple[int, float]", "v"), ("tuple element", "v: tuple[int, float]", "v[1]"),
+    ("array element", "v: array[int, 3]", "v[1]"), ("struct field", "v: D", "v.b"),
+    ("const int", "", "3"), ("const float", "", "2.5"), ("const bool", "", "True"), ("const negative", "", "-3"),
+    ("expression", "v: int", "(v + 1)"),
+]
+
+
+def tie_builtins(ctx):
+    cases = []
+    for bname in BUILTINS1:
+        for oname, sig, expr in OPERANDS:
+            cases.append((f"builtin:{bname}({oname})", sig, f"z = {bname}({expr})"))
+    for oname, sig, expr in OPERANDS[:6]:
+        cases.append((f"builtin:pow({oname})", sig, f"z = pow({expr}, 2)"))
+        cases.append((f"builtin:divmod({oname})", sig, f"z = divmod({expr}, 2)"))
+        cases.append((f"builtin:nested({oname})", sig, f"z = float(int({expr})) + len(array(1, 2))"))
+    if ctx.quick:
+        must = [c for c in cases if "struct" in c[0]]
+        rest = [c for c in cases if "struct" not in c[0]]
+        cases = must + ctx.rng.sample(rest, 35)
+    for name, sig, body in cases:
+        # a builtin applied to a Python constant is evaluated by Python at trace time: only accept/reject is compared
+        _check_pair(ctx, name, sig, "None", body, None, BUILTIN_PRELUDE, wiring=False, both_modes_only=True,
+                    fold="(const" in name)
+    # a Python int constant handed to a Guppy function where `nat` is expected
+    _check_pair(ctx, "call:nat parameter with constant", "v: nat", "None", "z = takes_nat(2)", None,
+                BUILTIN_PRELUDE + "@guppy\ndef takes_nat(y: nat) -> nat:\n    return y\n", wiring=False)
+
+
 def _binary_cases(ctx, ops):
     rng = ctx.rng
     cases = []
@@ -718,16 +767,22 @@ def tie(ctx):
         _check_pair(ctx, "shape:" + name, sig, ret, body, cbody, CONTAINER_PRELUDE, wiring=False)
     tie_deps(ctx)
     tie_const_reuse(ctx)
+    tie_builtins(ctx)
 
 
-def _check_pair(ctx, name, sig, ret, body, comptime_body, prelude, wiring, model=None, model_line=None):
+def _check_pair(ctx, name, sig, ret, body, comptime_body, prelude, wiring, model=None, model_line=None, both_modes_only=False, fold=False):
     if comptime_body is None:
         res = _both(sig, ret, body, prelude, wiring)
     else:
         res = {"regular": _both(sig, ret, body, prelude, wiring)["regular"],
                "comptime": _both(sig, ret, comptime_body, prelude, wiring)["comptime"]}
     (ro, rc), (co, cc) = res["regular"], res["comptime"]
-    agree = (ro == co == "ok" and rc == cc) or (ro == co == "reject")
+    agree = (ro == co == "ok" and (rc == cc or fold)) or (ro == co == "reject")
+    if both_modes_only and ro == "reject" and co == "ok":
+        # the operation is not available in regular Guppy (Python evaluates it on a plain value at trace time,
+        # e.g. `float(True)`, `len` of a tuple): outside the property ("operations available in both modes")
+        ctx.count([name, body], nontrivial=False, kind="python-only")
+        return
     ctx.count([name, body], nontrivial=(ro == "ok" and co == "ok"), kind=f"{ro}/{co}" + ("" if agree else ":DIFF"))
     rep = {"name": name, "sig": sig, "ret": ret, "body": body, "comptime_body": comptime_body, "prelude": prelude,
            "wiring": wiring, "regular": [ro, rc], "comptime": [co, cc], "model": model_line}
